@@ -63,7 +63,7 @@ def maxerr_cases(draw, max_nodes):
     for nd in spec["nodes"]:
         if nd["k"] == "call" and nd["beh"]["t"] == "raise":
             nd["beh"]["exc"] = draw(st.sampled_from(["exc", "val", "base"]))
-    spec["output"] = common.all_refs_output(spec)
+    spec["output"] = common.all_refs_output(spec, lits=draw(st.booleans()))
     cfg = draw(specs.run_configs(nodes=len(spec["nodes"])))
     cfg["max_errors"] = draw(st.sampled_from([None, 0, 1, 2, 3, 5]))
     if draw(st.booleans()):
